@@ -216,6 +216,30 @@ def handleSd (cmd : String) (args : List SExp) : String :=
           (match e.normal 0x3A with | some k => toHexW k | none => "none") ++ " " ++ toHexW id0
       | .error e => "e:" ++ e.name
     | _, _, _ => "bad-args"
+  | "sd-root", [prior, k, f, dv, bl] =>
+    -- prior: movable.sed data the engine loaded before ('' = none); k: the sd_key argument ('' = not given); f: list of 0/1 file contents
+    match prior.bytes?, k.bytes?, dv.nat?, bl.bytes? with
+    | some pr, some sdKey, some dev, some blob =>
+      let file : Option (Option Bytes) := match f with
+        | .list [] => some none
+        | .list [x] => x.bytes?.map some
+        | _ => none
+      match file with
+      | none => "bad-args"
+      | some file =>
+        let e0 := Engine.create (dev == 1) (some blob)
+        let start : Except Err (Engine × Option Bytes) :=
+          if pr.isEmpty then .ok (e0, none) else (Sd.setupSdKey Prim.sha256 e0 pr).map fun r => (r.1, some r.2)
+        match start with
+        | .error e => "e0:" ++ e.name
+        | .ok (e1, held) =>
+          match Sd.rootKey Prim.sha256 e1 held sdKey file with
+          | .ok (e, id0) =>
+            "ok " ++ (match e.normal 0x34 with | some k => toHexW k | none => "none") ++ " " ++
+              (match e.normal 0x30 with | some k => toHexW k | none => "none") ++ " " ++
+              (match e.normal 0x3A with | some k => toHexW k | none => "none") ++ " " ++ toHexW id0
+          | .error e => "e:" ++ e.name
+    | _, _, _, _ => "bad-args"
   | "sdtitle-select", [.list present, .list recs] =>
     -- present: existing file names; recs: the `<id>.app` name of every TMD record, in order -> indices of the listed records
     match present.mapM SExp.bytes?, recs.mapM SExp.bytes? with
